@@ -20,6 +20,7 @@ PAYLOADS = [
     '{%s}' % SET, "'+str(%s)+'" % SET, "x' if %s else '" % SET, "'%s'" % SET, "\\", "\\'", "'\\", "a'\nb", "'; %s; '" % SET, "__import__ ('os').system ('true')",
     "' + self.%s + '" % CANARY, "{titles}", "{0}", "%(x)s", "' # ", '" # ', "\\x27+%s+\\x27" % SET, "\\N{APOSTROPHE}+%s" % SET,
     # wildcard literals (PatternToken) with backslashes; texts that look like formulas after a blank
+    'stored as _xlfn.IFS by Excel', '_xlfn.', '_xlws.FILTER', 'what?""', '*""', '""*', '?"', '"*"', 'a*""""b', "it's", 'say "hi"',
     'a?\\n', '*\\t', '?\\\\', '*\\x41', 'a*\\', '?\\', '~*\\', '*\\"', ' =1+1', '\n="a"&"b"', '  =A1*2 ', '\t=%s' % SET, ' =%s' % SET,
 ]
 
@@ -118,7 +119,8 @@ def run(tier, seed):
 
 
 def one(chk, s, const):
-    sheets = [('S', [[const, '=' + excel_literal(s)]])]
+    lit = excel_literal(s)
+    sheets = [('S', [[const, '=' + lit, '=A1&%s' % lit, '=%s&"z"' % lit]])]
     try:
         text = realcode.translate(sheets)
     except Exception as e:  # noqa
@@ -131,7 +133,7 @@ def one(chk, s, const):
             chk.violation({'why': 'a workbook of one constant text and one plain text literal is rejected: the text is not carried as inert data', 'impl': 'E' + kind,
                            'error': str(e)[:200], 'string': repr(s), 'stream': 'rejected-literal'})
         return
-    verify(chk, text, sheets, [(s, const)], cols=2)
+    verify(chk, text, sheets, [(s, const)], cols=4)
 
 
 def verify(chk, text, sheets, plan, cols=None):
